@@ -120,8 +120,15 @@ def run_case(case):
         ish, osh = tuple(A.ishape), tuple(A.oshape)
         worst = 0.0
         spec = Spec(lops.build, lops.scalar_value) if "parts" in desc or "A" in desc else None
-        for k in range(4):
-            if k < 3:
+        for k in range(5):
+            if k == 4:
+                # a real-dtype x against a complex y (the adjoint identity holds for every
+                # real vector too; conjugations skipped "because the data are real" show here)
+                if dt.kind != "c":
+                    break
+                x = crandn(rng, ish, np.float64 if dt == np.complex128 else np.float32)
+                y = crandn(rng, osh, dt)
+            elif k < 3:
                 # third pair: data with structure Gaussian draws never have (constant,
                 # alternating, one-hot, exact ties, powers of two, signed zeros, denormals)
                 with structured(sum(case["rs"]) % 10 if k == 2 else 0):
@@ -167,11 +174,15 @@ def run_case(case):
                     return inconclusive("single-precision overflow (finite and adjoint in "
                                         "double precision)", sig="c64-overflow")
                 return r64
-            worst = max(worst, rel)
-            if not rel <= tol:
+            worst = max(worst, rel if k < 4 else 0.0)
+            # (sigpy's fft / nufft compute real-dtype input in complex64: single-precision
+            # tolerance for the real-x pair)
+            if not rel <= (tol if k < 4 else max(tol, 2e-4)):
                 return violated(sig, "<Ax,y> = %s but <x,A^H y> = %s (relative gap %.3g, tol "
                                 "%.1g) on %s pair" % (lhs, rhs, rel, tol,
-                                                      "sparse" if k == 3 else "Gaussian"),
+                                                      "sparse" if k == 3 else
+                                                      "real-x / complex-y" if k == 4 else
+                                                      "Gaussian"),
                                 wit, mech="inner-product", obs={"rel": rel})
         obs["adjoint_gap"] = worst
         # A.H.H acts like A
